@@ -26,6 +26,7 @@ import (
 	"regexp"
 	"sort"
 	"strings"
+	"time"
 
 	"github.com/benhoyt/goawk/parser"
 	"verif/harness/c19/shared"
@@ -281,6 +282,23 @@ func allFuncs(items map[string]bool) bool {
 
 // ---- generators specific to C19 ----
 
+// itemOfSource: the same from the text (every top-level item of a generated source is one line)
+func itemOfSource(src string) func(int) string {
+	ls := strings.Split(src, "\n")
+	return func(line int) string {
+		if line < 1 || line > len(ls) {
+			return "?"
+		}
+		l := ls[line-1]
+		if strings.HasPrefix(l, "function ") {
+			if i := strings.Index(l, "("); i > 0 {
+				return "func " + strings.TrimSpace(l[len("function "):i])
+			}
+		}
+		return "item"
+	}
+}
+
 func itemOfProg(p *Prog) func(int) string {
 	return func(line int) string {
 		if line < 1 || line > len(p.Items) {
@@ -395,9 +413,12 @@ func progCase(p *Prog) *kase {
 	k := &kase{family: p.Family, src: p.Source(), wire: p.Wire(), natives: p.Natives, nfuncs: len(p.funcs()), itemOf: itemOfProg(p)}
 	k.small = k.nfuncs <= 4
 	if !k.small {
+		// a sample of "this function's key comes first in every map iteration"
 		k.fronts = []string{""}
-		for _, f := range p.funcs() {
-			k.fronts = append(k.fronts, f.Name)
+		fs := p.funcs()
+		step := 1 + len(fs)/5
+		for i := 0; i < len(fs); i += step {
+			k.fronts = append(k.fronts, fs[i].Name)
 		}
 	}
 	return k
@@ -622,8 +643,9 @@ func sharedOracle(rep *hx.Report, dir string, goroutines, rounds int) {
 			continue
 		}
 		if strings.Contains(res.Reference, "ERROR:") || strings.Contains(res.Reference, "PANIC:") {
-			rep.HarnessError("shared workload %s: reference execution failed: %s", w.Name, short(res.Reference))
-			continue
+			// the workload itself is valid AWK: an error here comes from the interpreter under
+			// test; the comparison below still applies (all executions must agree with it)
+			rep.Count("shared:reference-execution-ended-in-error")
 		}
 		bad := false
 		for i, o := range res.Outputs {
@@ -736,7 +758,13 @@ func buildCases(o hx.Opts, r *hx.Rand) []*kase {
 		for j := 0; j < 1+i%4; j++ {
 			bad[r.Intn(n)] = 1 + r.Intn(4)
 		}
-		add(kBad(n, bad, i%2 == 0, i%3 == 0))
+		kb := progCase(kBad(n, bad, i%2 == 0, i%3 == 0))
+		kb.fronts = []string{""}
+		for j := range bad { // each erroneous function first: every error the map order can select
+			kb.fronts = append(kb.fronts, fmt.Sprintf("f%d", j))
+		}
+		sort.Strings(kb.fronts)
+		ks = append(ks, kb)
 		add(randomProg(r, 6+r.Intn(10), false, false))
 	}
 	add(chain(60, "caller", TArray, TArray, false))
@@ -756,6 +784,13 @@ func main() {
 	rep.Rule = "sources: the two witnesses; every subset of 1..4 functions erroneous (4 kinds of error, called from BEGIN or not, with/without native functions); C16's systematic families with <= 4 functions; random programs over small name pools (plain and hostile); large programs (12-40 functions with walk-order dependent creation of globals, 10-35 functions with 1-4 erroneous ones, long chains, the 200-function ring at the pass cut-off); each source parsed 30 times. distinct = distinct AWK source; non-trivial = has a function and a call or parameter list"
 	r := hx.NewRand(o.Seed)
 	ks := buildCases(o, r)
+	t0 := time.Now()
+	lap := func(what string) {
+		if os.Getenv("C19_TIMING") != "" {
+			fmt.Fprintf(os.Stderr, "c19: %-28s %6.1fs\n", what, time.Since(t0).Seconds())
+		}
+		t0 = time.Now()
+	}
 
 	var reqs []string
 	capRuns := 3000
@@ -777,13 +812,14 @@ func main() {
 			for _, f := range k.fronts {
 				fs = append(fs, hx.HexS(f))
 			}
-			seeds := 6
+			seeds := 3
 			if strings.HasPrefix(k.family, "ring-200") {
 				seeds = 0
 			}
 			reqs = append(reqs, fmt.Sprintf("fronts %d %d %s %s", seeds, len(fs), strings.Join(fs, " "), k.wire))
 		}
 	}
+	lap("parses + search oracle")
 	// the names the disassembler may show for native calls (programs with Go functions)
 	var natCases []*kase
 	var natReqs []string
@@ -800,7 +836,12 @@ func main() {
 			k.correspondNames(rep, natAns[i])
 		}
 	}
+	lap("model natnames")
+	if f := os.Getenv("C19_DUMPREQS"); f != "" {
+		os.WriteFile(f, []byte(strings.Join(reqs, "\n")+"\n"), 0o644)
+	}
 	answers, err := hx.ModelEval(o.ModelRun, reqs)
+	lap("model outcomes")
 	if err != nil {
 		rep.HarnessError("modelrun: %v", err)
 	} else {
@@ -817,6 +858,7 @@ func main() {
 		}
 	}
 
+	lap("correspondence")
 	dir, err := os.MkdirTemp("", "c19")
 	if err != nil {
 		rep.HarnessError("tempdir: %v", err)
@@ -830,8 +872,10 @@ func main() {
 			sharedOracle(rep, dir, g, rounds)
 		}
 	}
+	lap("shared execution")
 	if o.Tier == "thorough" {
 		raceOracle(rep)
+		lap("race detector")
 	} else {
 		rep.Count("race:not-run-in-quick-tier")
 	}
@@ -862,6 +906,7 @@ func replay(o hx.Opts) int {
 	switch d["kind"] {
 	case "parse":
 		k := &kase{family: fmt.Sprint(d["family"]), src: fmt.Sprint(d["source"])}
+		k.itemOf = itemOfSource(k.src)
 		if ns, ok := d["natives"].([]any); ok {
 			for _, x := range ns {
 				if m, ok := x.(map[string]any); ok {
